@@ -1615,7 +1615,9 @@ def c16_cli_check(case):
 # ======================================================================= C18
 
 def c18_gen(rng):
-    return {'s': gen.gen_constant_string(rng), 'atom': gen.gen_atom_text(rng).replace(' ', '')}
+    nums = [rng.choice([0, 1, -1, 2, 10, 1.0, 0.0, -0.0, 2.5, 10.0, -1.0, 1e3, 100, 7, 7.0]) for _ in range(rng.randint(0, 4))]
+    return {'s': gen.gen_constant_string(rng), 'atom': gen.gen_atom_text(rng).replace(' ', ''),
+            'nums': [j_atom(n) for n in nums]}
 
 
 def c18_check(case):
@@ -1628,6 +1630,12 @@ def c18_check(case):
         return f'evaluate(quote({s!r})) = {constant.evaluate(q)!r}'
     if constant.type(q) != constant.STRING:
         return f'type(quote({s!r})) = {constant.type(q)!r}'
+    for jn_ in case.get('nums', []):
+        n = py_atom(jn_)
+        if constant.quote(n) != constant.quote(str(n)):
+            return f'quote({n!r}) = {constant.quote(n)!r} is not the quoting of its string form {constant.quote(str(n))!r}'
+    if constant.quote(None) != '""':
+        return 'quote(None)'
     a = case['atom']
     if any(c in a for c in ' \t\n\r'):
         return None
@@ -1662,7 +1670,7 @@ def c19_gen(rng):
     ts = []
     for _ in range(n):
         s = rng.choice(gen.VARS)
-        r = rng.choice(gen.ROLES_PLAIN[:-3] + ['instance', 'ARG0', ':r-of'])
+        r = rng.choice(gen.ROLES_PLAIN[:-3] + ['instance', 'ARG0', ':r-of', ':^up', '^down', ':a^b'])
         t = rng.choice(gen.VARS + ['7', '-1.5', 'imperative', '"a b"', '"x, y"', '"p(q)"', '"c ^ d"', '"\\"q\\""', '-'])
         ts.append([s, r, t])
     return {'triples': ts, 'indent': maybe(rng, 0.5), 'comma': rng.choice([', ', ',', ' , ', ' ,']),
@@ -1675,7 +1683,7 @@ def c19_check(case):
         if not is_symbol(s) or ',' in s or s.startswith('^'):
             return None
         body = r.lstrip(':')
-        if body == '' or not is_symbol(body) or ',' in body or body.startswith('^') or '(' in body:
+        if body == '' or not is_symbol(body) or ',' in body or '(' in body:
             return None
         if not (is_string(t) or (is_symbol(t) and ',' not in t)):
             return None
@@ -1690,7 +1698,8 @@ def c19_check(case):
         return f'parse_triples(format_triples(ts)) = {got!r} != {want!r}'
     # spacing variants (symbol targets only: a comma glued to a string is not a documented variant)
     if all(is_symbol(t) for _, _, t in ts):
-        v = text.replace(', ', case['comma']).replace(' ^', case['caret'])
+        sep = {' ^': ' ^', '^': '^', ' ^ ': ' ^ '}[case['caret']]
+        v = sep.join(f"{r.lstrip(':')}({s_}{case['comma']}{t})" for s_, r, t in ts)
         try:
             got = penman.parse_triples(v)
         except Exception as e:  # noqa: BLE001
